@@ -80,15 +80,18 @@ Lemma el_vsys Cf S ids σ :
   (forall m, In m S -> m_body m = VoteResp true -> In m (sy_soup σ)) ->
   Election.inv ids (vsys Cf S σ).
 Proof.
-  intros I HS. destruct I. constructor; simpl; auto.
-  - rewrite ids_vsys. exact i_ids.
+  intros I HS. destruct I. constructor.
+  - simpl. rewrite ids_vsys. exact i_ids.
+  - exact i_nodup.
   - intros i s G. apply get_node_vsys_some in G. destruct G as [x [Gx E]]. subst s. simpl. eapply i_nz; eauto.
   - intros i s G. apply get_node_vsys_some in G. destruct G as [x [Gx E]]. subst s. exact (i_conf i x Gx).
+  - exact i_fun.
   - intros n t c Hin. destruct (i_cast n t c Hin) as [A [x [Gx [B D]]]]. split; auto.
-    exists (vnode Cf x). split; [rewrite get_node_vsys, Gx; reflexivity | simpl; auto].
-  - intros m Hin Hb Hto. apply i_grant; auto.
+    exists (vnode Cf x). split; [simpl; rewrite get_node_vsys, Gx; reflexivity | simpl; auto].
+  - intros m Hin Hb Hto. simpl in Hin. apply i_grant; auto.
   - intros i s G Hr. apply get_node_vsys_some in G. destruct G as [x [Gx E]]. subst s. exact (i_votes i x Gx Hr).
   - intros i s G Hr. apply get_node_vsys_some in G. destruct G as [x [Gx E]]. subst s. exact (i_leader i x Gx Hr).
+  - exact i_hist.
 Qed.
 
 Lemma inv2_vsys n Cf S σ :
